@@ -5,7 +5,7 @@ from ..coregen.prop import CoreProp
 class Prop(CoreProp):
     ID = "C02"
     checks = ['C02']
-    tiers = {"quick": {"runs": 800, "selftest_runs": 4}, "thorough": {"runs": 8000, "selftest_runs": 32}}
+    tiers = {"quick": {"runs": 1600, "selftest_runs": 4}, "thorough": {"runs": 8000, "selftest_runs": 32}}
     feat = {'n_conflicts': (1, 4), 'prio': True, 'n_before': (0, 1), 'p_self_conflict_excl': 0.7, 'p_self_conflict_nonexcl': 0.06, 'p_nonex': 0.35, 'p_wrap': 0.7}
     rule = 'one run = one generated program (1-3 modules, 1-5 transactions, 0-6 methods, call depth <= 3, nested bodies, If/Switch/FSM around bodies and calls, enable_call, validate_arguments, aliases, nonexclusive methods, 1-4 add_conflict relations of all priorities) under one arbiter and one internal set order, driven for 60-160 cycles by a seeded phase plan (random / all-on contention / single-method stall / flapping / exhaustive valuation sweep when <= 10 one-bit inputs); distinct = distinct (program, arbiter, set of transactions running in a cycle); non-trivial = at least one transaction ran'
     expected_cov = ['conflict_side_runs', 'conflict_both_sides_enabled', 'concurrent_transactions']
